@@ -104,7 +104,10 @@ def check_valid(ctx, tree, which="public"):
         if not ok:
             raise Violation("c01:atoms", "%r: count of %r is %r expected %s" % (s, k, got[k], float(v)), case)
     q = float(fa.net_charge(comp))
-    if not close(float(f.charge), q, 1e-11) and abs(f.charge - q) > 1e-9:
+    # the library sums count*charge in doubles: allow rounding relative to the size of the terms
+    # (positive and negative ions of large count cancel), not relative to the net value
+    qscale = float(sum(abs(v * k[2]) for k, v in comp.items()))
+    if abs(float(f.charge) - q) > 1e-12 * max(qscale, 1.0):
         raise Violation("c01:charge", "%r: charge %r expected %r" % (s, f.charge, q), case)
     # density
     if tree["d"] is not None:
@@ -231,7 +234,9 @@ def malform(tree, kind, r):
         sym = tk[i][0]
         choices = BOGUS1 + BOGUS2
         low = sym[0].lower() + sym[1:]
-        if not any(low.startswith(u) for u in UNITS) and not low.startswith("g"):
+        # not after a bare one-letter symbol: 'B'+'h...' would read as another symbol (HBH -> HBh = H Bh)
+        glued = i > 0 and tk[i - 1][1] == "sym" and len(tk[i - 1][0]) == 1
+        if not any(low.startswith(u) for u in UNITS) and not low.startswith("g") and not glued:
             choices = choices + [low, low]
         if len(sym) == 2:
             # a defined first letter followed by an undefined lower-case letter
@@ -393,11 +398,11 @@ def tasks(tier):
                 ("malformed-b", task_malformed, dict(n=1000))]
     out = []
     for k in range(8):
-        out.append(("valid-%d" % k, task_valid, dict(n=30000, depth=2 + k % 4)))
-    out.append(("deep-0", task_valid, dict(n=5000, depth=0, tower=40)))
-    out.append(("deep-1", task_valid, dict(n=5000, depth=0, tower=25)))
+        out.append(("valid-%d" % k, task_valid, dict(n=12000, depth=2 + k % 4)))
+    out.append(("deep-0", task_valid, dict(n=3000, depth=0, tower=40)))
+    out.append(("deep-1", task_valid, dict(n=3000, depth=0, tower=25)))
     for k in range(6):
-        out.append(("malformed-%d" % k, task_malformed, dict(n=30000)))
+        out.append(("malformed-%d" % k, task_malformed, dict(n=15000)))
     return out
 
 
